@@ -23,7 +23,7 @@
     (captured id of a span = its rank among enabled spans): [Capture/LayerSpec.v].
     [reachable]: reachable from the empty storage by valid mutations, the hypothesis of every
     theorem of C17 ([Props/C17.v]). *)
-From TT Require Import Capture.ConcurrentProofs Capture.SoloProofs Capture.Queries Capture.QueriesProofs.
+From TT Require Import Capture.ConcurrentProofs Capture.SoloProofs Capture.SoloOpen Capture.Queries Capture.QueriesProofs.
 
 (** ** under every schedule the layer completes every callback and stores exactly what the
     specification prescribes.  For every filter, every id assignment and every execution the safe
@@ -140,6 +140,17 @@ Theorem C19_worker_view_is_solo_view : forall (t : nat) (filter : cs_data -> boo
   wf_prog_b p = true -> wf_prog_b (solo t p) = true -> isolated t p = true ->
   tview_of t filter ids p = tview_of t filter ids' (solo t p).
 Proof. exact tview_solo. Qed.
+
+(** ... and the spans of the worker are open (not yet closed by the subscriber: a handle is alive, or
+    a thread has entered the span, or a child is open) exactly when they are in the solo execution;
+    [oview t owners a]: the open flags of the spans of [t], in creation order.  With the entry above
+    this is every field of a captured span of [t]: metadata, values, entered, exited, closed, parent,
+    follows-from. *)
+Theorem C19_worker_spans_open_as_in_solo : forall (t : nat) (filter : cs_data -> bool) (ids ids' : list N) (p : prog),
+  wf_prog_b p = true -> wf_prog_b (solo t p) = true -> isolated t p = true ->
+  oview t (owners_of (p_sites p) (p_ops p)) (spec_run filter ids p)
+  = oview t (owners_of (p_sites p) (p_ops (solo t p))) (spec_run filter ids' (solo t p)).
+Proof. exact oview_solo. Qed.
 
 (** hence two executions with the same solo execution of [t] - e.g. two interleavings of the same
     per-thread programs - give [t] the same view *)
